@@ -78,7 +78,7 @@ def main():
                     i = src.find("'%s'" % name)
                 j = src.find('"edits"', i) if i >= 0 else -1
                 seg = src[i:j] if i >= 0 and j > i else ""
-                if '"equivalent": True' in seg or '"slow": True' in seg and False:
+                if '"equivalent": True' in seg or '"known_miss": True' in seg:
                     equiv.add(name)
         lines.append("**%s**" % pid)
         lines.append("")
